@@ -9,6 +9,12 @@ CHECKS = {
  "C19": ("exploration", "reference-model monitor (map[string][]byte) over exhaustively enumerated operation histories executed on the real tries",
          "Every history of <=4 (quick) / <=6,5 (thorough) operations over the prefix-sharing key set, with a Dump->Load round trip at every position, is executed against the real topics.Store and subscriptions.Tree and compared with a map after the history; seeded histories add empty-level and wildcard keys. Exhaustive for the stated bound, sampling beyond it.",
          "Trusts the Go runtime and the harness's 60-line map model; values are opaque non-empty byte strings.", "5/C19"),
+ "C06": ("exploration", "shadow-set monitor over the real allocator: breadth-first exploration of all reachable allocator states for small ranges + seeded long histories",
+         "All allocator states reachable for ranges of width 1-8 (quick) / 1-11 (thorough) are explored on the real allocator by executing every Get/Put(x) from every reached state and checking each return value and the free list against a shadow set; seeded histories of 10^5-10^6 calls cover the production range and drive mid-size ranges to exhaustion. Complete for the small ranges, sampling beyond.",
+         "Hook H1 exposes the unexported allocator and its free intervals; exhaustion value is any value outside [min,max].", "5/C06"),
+ "C04": ("exploration", "reference-model monitor (map of in-flight entries with deadlines) over seeded operation histories on the real ack.Queue and both expiration.List implementations; exactly-once outcome counting under concurrent stress",
+         "Seeded sequential histories with colliding deadlines (equal, same second, past, future), wrong-type and unknown acknowledgements, duplicate registrations and self re-arming callbacks are executed on the real queue; every callback is compared with a map model (one-second band for deadlines) and after final sweeps every registration must have exactly one outcome. The List interface is checked alone for both implementations, and exactly-once is re-checked with 8-16 goroutines and a concurrent sweeper.",
+         "Hook H4 exposes both list constructors. Deadlines are synthetic (no wall clock). Concurrency coverage is what the scheduler produced in the run.", "5/C04"),
 }
 NOT_YET = "check not built yet in this round (design in DESIGN.md section 5); will be claimed once its monitor exists"
 
